@@ -1,12 +1,90 @@
-"""C19 - ZooKeeper server set reports exactly the membership changes that occurred.  (work in progress)"""
+"""C19 - ZooKeeper server set reports exactly the membership changes that occurred.
+
+Implementation under test (imported from $SCALES_REPO as it is now):
+  scales.loadbalancer.zookeeper.ServerSet (with Member.from_node) created with on_join/on_leave and a
+  member_filter exactly as ZooKeeperServerSetProvider.Initialize does, on top of the REAL
+  kazoo.recipe.watchers.DataWatch / ChildrenWatch running over harness/c19_fakezk.FakeZk.
+A case is a history {'filtered': [...], 'ops': [...]} with operations
+  ['start'] | ['mkp'] | ['rmp'] | ['touch'] | ['mk', n] | ['rm', n] | ['deliver'] | ['work'] | ['raise']
+(the harness greenlet never yields except inside 'work', so the schedule is the op sequence: tree
+mutations, delivery of the oldest pending watch callback, one run of the notification worker up to
+its next blocking point - a member read, answered from the tree at that moment - and arming the next
+consumer callback to raise).
+Model: coq/Model/ZkSet.v, evaluated in lock step on every history (check_case).
+Monitor: the property statement on the on_join/on_leave log vs the simulated tree, written without
+reference to the model.
+"""
 import json
 import os
 import sys
 
 from .. import common as C
+from .. import c19_shadow as SH
 
 PID = 'C19'
 PROPS_FILE = 'Props/C19.v'
+COQ_HEADER = 'From Scales Require Import Model.ZkSet.'
+COQ_CASE_TYPE = 'ZkSet.case'
+COQ_CHECK = 'ZkSet.check_case'
+COQ_EXPLAIN = 'ZkSet.explain_case'
+SHARD = 120
+WORKERS = 6
+
+# Schedule families on which the unchanged code violates the property (see the final report / KNOWN_FINDINGS):
+#   g1  the data watch reports the path deleted while a change batch is queued or in progress (F22)
+#   g2  a member whose read was skipped (vanished) is re-created before a children notification showed its absence
+#   g3  the path is deleted / re-created while a data-watch notification is still undelivered
+# A family is generated when its signature is listed in KNOWN_FINDINGS.json (then it is reported as
+# KNOWN-FINDING on every run) or when it is not named in C19_AVOID (env, comma separated; default below).
+SIG = {'g1': 'stale-join-after-parent-delete',
+       'g2': 'missed-join-after-vanish-recreate',
+       'g3': 'path-flap-before-data-watch'}
+AVOID_DEFAULT = ('g1', 'g2', 'g3')
+
+
+def avoided():
+  env = os.environ.get('C19_AVOID')
+  if env is not None:
+    return set(x for x in env.split(',') if x)
+  return set(g for g in AVOID_DEFAULT if C.known_match(PID, SIG[g]) is None)
+
+
+RULE = ('histories over 2-5 member names (some rejected by the member filter): (a) hand-written regressions, (b) state-covering '
+        'traces - breadth-first enumeration of a generator-side shadow of the mechanics over 2 names (+1 filtered), one shortest '
+        'history per distinct shadow state up to depth 8 (quick) / 11 (thorough), each driven to quiescence, (c) seeded random '
+        'histories of 10-90 operations with creates/deletes, path deletion/re-creation/touch, deliveries and worker runs in any '
+        'order, members vanishing between listing and reading, raising callbacks, settling phases; schedule families g1/g2/g3 '
+        '(see SIG) are produced only when listed as known findings or requested with C19_AVOID; non-trivial = at least one '
+        'callback was delivered and a quiescent point was checked; distinct by canonical JSON of (case, observation)')
+TRUSTED = ['harness/c19_fakezk.py: in-process stand-in for the Kazoo client (one-shot watches as sets per path, registration only on '
+           'success except exists, FIFO delivery of fired watch callbacks, reads see the tree at delivery/answer time); the real '
+           'kazoo.recipe.watchers.DataWatch/ChildrenWatch (kazoo 2.11) run on it',
+           'gevent scheduling: the harness greenlet yields only inside a work step, the worker parks inside FakeZk.get',
+           'monitor in harness/props/c19.py (consumer set, alternation, quiescence detection from harness-visible facts)']
+ASSUMPTIONS = ['member data is well-formed JSON with the fields Member.from_node requires (a malformed member makes the worker '
+               'drop the whole batch: outside the property statement)',
+               'one ZooKeeper session without connection loss: watch callbacks are delivered in the order they fired (Kazoo has one '
+               'callback worker) and each recipe callback reads the tree atomically at delivery time',
+               'the notification worker may be delayed arbitrarily relative to watch callbacks (it is a separate greenlet; '
+               'get_members() holding the callback blocker delays it in practice)',
+               'consumer callbacks do not call back into the ServerSet and do not yield',
+               'C19_converges_partial / C19_alternation_partial are proved under the guards G1-G3 / G1 of Model/ZkSet.v; without them '
+               'the statements are refuted on the faithful model (C19_*_refuted) and reproduced on the code']
+
+MANIFEST = {
+    'text': ('Theorems over every label sequence (tree mutations, path deletion/re-creation, FIFO delivery of watch callbacks at any '
+             'later time, worker runs with any read order, vanishing members, raising callbacks) of a Gallina model of ServerSet + the '
+             'Kazoo watch recipes: C19_callback_isolation (full strength), C19_converges_partial (consumer set = members present at '
+             'every quiescent state, under guards G1-G3), C19_alternation_partial (join/leave alternate per member, under G1), and '
+             'C19_converges_refuted / C19_alternation_refuted: machine-checked witnesses that the unguarded statements are false '
+             'of the code as it is (three schedule families, each reproduced on the real ServerSet). Model compared in lock step '
+             'with the real ServerSet + real Kazoo recipes over a fake client on every generated history.'),
+    'note': ('Trusted: Coq kernel; fake Kazoo client and deterministic gevent scheduling of the harness; the monitor. The guards '
+             'G1-G3 delimit schedules on which the unchanged code violates the property (reported findings). All theorems closed '
+             'under the global context.'),
+    'technique': 'Coq invariants over a label-driven transition system + lock-step trace-driven correspondence on the real code',
+    'design_ref': 'DESIGN.md section 5, C19',
+}
 
 _S = {}
 
@@ -134,9 +212,379 @@ class _Run(object):
 
 
 def run_impl(case):
+  if case.get('pattern') and case['pattern'] in avoided():
+    return {'skipped': 'schedule family %s is not generated in this configuration' % case['pattern']}
   run = _Run(case)
   try:
     steps = [run.step(op) for op in case['ops']]
   finally:
     run.close()
-  return {'steps': steps}
+  out = {'steps': steps}
+  if any(e[2] for s in steps for e in s['ev']):
+    # the same history with no callback raising: the notifications must be the same
+    run2 = _Run(case, allow_raise=False)
+    try:
+      steps2 = [run2.step(op) for op in case['ops']]
+    finally:
+      run2.close()
+    out['noraise_events'] = [[e[0], e[1]] for s in steps2 for e in s['ev']]
+  return out
+
+
+# ---------------------------------------------------------------------------------------------
+# monitor: the property statement, judged from what the harness can see
+# ---------------------------------------------------------------------------------------------
+def monitor(case, obs):
+  if 'skipped' in obs:
+    return []
+  filtered = set(case.get('filtered', []))
+  v = []
+  seen = set()
+  pats = []
+
+  def flag(sym, msg):
+    sig = sym
+    for p in ('g1', 'g3', 'g2'):
+      if p in pats:
+        sig = SIG[p]
+        break
+    if sig not in seen:
+      seen.add(sig)
+      v.append((sig, msg))
+
+  started = False
+  busy = False                 # a children notification has been handed to the server set and the worker has not gone idle since
+  consumer = set()
+  skipped = set()              # members whose read found nothing and whose absence no later notification has shown
+  prev = {'pending': [], 'cw': 0, 'parked': None, 'tree': None}
+  checked = 0
+  for i, (op, st) in enumerate(zip(case['ops'], obs['steps'])):
+    k = op[0]
+    # --- schedule families (used only to name a violation, never to excuse one) -------------------
+    if k in ('mkp', 'rmp') and st.get('eff') and 'data' in prev['pending'] and 'g3' not in pats:
+      pats.append('g3')
+    if k == 'mk' and st.get('eff') and op[1] in skipped and 'g2' not in pats:
+      pats.append('g2')
+    if (k == 'deliver' and st.get('kind') == 'data' and st['tree'] is None and started
+            and (busy or prev['parked'] is not None) and 'g1' not in pats):
+      pats.append('g1')
+    if k == 'start' and 'exc' not in st:
+      started = True
+    if k in ('start', 'deliver') and st['cw'] > prev['cw']:
+      busy = True                                # get_children succeeded: the function was called with st['tree']
+      skipped &= set(st['tree'] or [])
+    if k == 'deliver' and st.get('kind') == 'data' and st['tree'] is None:
+      skipped.clear()
+    for n, found in st['reads']:
+      if found:
+        skipped.discard(n)
+      else:
+        skipped.add(n)
+    if k == 'work' and st['parked'] is None:
+      busy = False
+    # --- the notifications of this step ------------------------------------------------------------
+    for kind, n, _raised in st['ev']:
+      if n in filtered:
+        flag('filtered-name-reported', 'step %d: %s reported for %d which the member filter rejects' % (i, kind, n))
+      if kind == 'join':
+        if n in consumer:
+          flag('double-join', 'step %d (%s): member %d reported joining twice without a leave in between' % (i, k, n))
+        consumer.add(n)
+      else:
+        if n not in consumer:
+          flag('leave-without-join', 'step %d (%s): member %d reported leaving while the consumer does not hold it' % (i, k, n))
+        consumer.discard(n)
+    # --- quiescent: nothing undelivered, worker idle with an empty queue -----------------------------
+    if started and not st['pending'] and st['parked'] is None and not busy:
+      checked += 1
+      want = set(n for n in (st['tree'] or []) if n not in filtered)
+      if consumer != want:
+        flag('consumer-differs-from-tree',
+             'step %d (%s): quiescent, consumer holds %s but the members present are %s (stale %s, missing %s)'
+             % (i, k, sorted(consumer), sorted(want), sorted(consumer - want), sorted(want - consumer)))
+    prev = st
+  if 'noraise_events' in obs:
+    a = [[e[0], e[1]] for s in obs['steps'] for e in s['ev']]
+    b = obs['noraise_events']
+    names = set(e[1] for e in a + b)
+    if len(a) != len(b) or any([e for e in a if e[1] == n] != [e for e in b if e[1] == n] for n in names):
+      flag('callback-error-changes-notifications',
+           'with raising callbacks the notifications were %s, without %s' % (a[:12], b[:12]))
+  return v
+
+
+# ---------------------------------------------------------------------------------------------
+# generators
+# ---------------------------------------------------------------------------------------------
+def _settle_ops(s, limit=60):
+  """Drives the shadow (and so the history) to quiescence: worker first, then the oldest callback."""
+  ops = []
+  if not s.started:
+    ops.append(['start'])
+    SH.step(s, ['start'])
+  while not s.quiescent() and len(ops) < limit:
+    op = ['work'] if (s.wk is not None or s.queue) else ['deliver']
+    ops.append(op)
+    SH.step(s, op)
+  return ops
+
+
+def _cover_traces(depth, avoid, names, filt, limit):
+  """One shortest history per distinct shadow state (breadth first), each followed by a settling phase."""
+  alphabet = ([['start'], ['mkp'], ['rmp'], ['touch'], ['deliver'], ['work']] +
+              [['mk', n] for n in names] + [['rm', n] for n in names])
+  s0 = SH.St(filt)
+  seen = {s0.key()}
+  frontier = [(s0, [])]
+  out = []
+  for _d in range(depth):
+    nxt = []
+    for s, path in frontier:
+      for op in alphabet:
+        if not SH.effective(s, op) or (SH.patterns(s, op) & avoid):
+          continue
+        t = SH.step(s.clone(), op)
+        kx = t.key()
+        if kx in seen:
+          continue
+        seen.add(kx)
+        p2 = path + [op]
+        nxt.append((t, p2))
+        out.append(p2 + _settle_ops(t.clone()))
+        if len(out) >= limit:
+          return out
+    frontier = nxt
+  return out
+
+
+_W = [('mk', 7), ('rm', 5), ('mkp', 2), ('rmp', 2), ('touch', 1), ('deliver', 7), ('work', 7), ('raise', 1), ('settle', 1)]
+
+
+def _random_trace(r, avoid):
+  k = r.choice([2, 2, 3, 4, 5])
+  filt = [r.randrange(k)] if r.random() < 0.3 else []
+  n = r.choice([10, 20, 30, 50, 90])
+  w = dict(_W)
+  mode = r.random()
+  if mode < 0.25:          # worker starved, deliveries prompt
+    w['work'] = 1
+  elif mode < 0.5:         # deliveries late
+    w['deliver'] = 1
+  elif mode < 0.65:        # path churn
+    w['mkp'] = w['rmp'] = 5
+  if r.random() < 0.5:
+    w['raise'] = 0
+  tot = sum(w.values())
+  s = SH.St(filt)
+  ops = []
+  if r.random() < 0.85:
+    pre = [['mkp']] + [['mk', r.randrange(k)] for _ in range(r.choice([0, 1, 2, 3]))]
+    pre.insert(r.randrange(len(pre) + 1), ['start'])
+    for op in pre:
+      if not (SH.patterns(s, op) & avoid):
+        ops.append(op)
+        SH.step(s, op)
+  while len(ops) < n:
+    x = r.randrange(tot)
+    for nm, wt in w.items():
+      if x < wt:
+        break
+      x -= wt
+    if nm == 'settle':
+      ops.extend(_settle_ops(s))
+      continue
+    op = [nm, r.randrange(k)] if nm in ('mk', 'rm') else [nm]
+    if r.random() < 0.7 and not SH.effective(s, op):
+      continue
+    if SH.patterns(s, op) & avoid:
+      continue
+    if nm == 'start' and s.started:
+      continue
+    ops.append(op)
+    SH.step(s, op)
+  if r.random() < 0.9:
+    ops.extend(_settle_ops(s))
+  return {'kind': 'random', 'filtered': filt, 'ops': ops}
+
+
+S_, D_, W_ = ['start'], ['deliver'], ['work']
+HAND = [
+    # path deleted with two members present (F19), then re-created with one of them (F20)
+    {'kind': 'hand', 'name': 'f19-f20', 'ops': [['mkp'], ['mk', 0], ['mk', 1], S_, W_, W_, W_, ['rmp'], D_, D_, W_,
+                                                  ['mkp'], D_, ['mk', 0], D_, W_, W_, W_]},
+    # a raising on_leave inside _send_all_removed and inside the worker
+    {'kind': 'hand', 'name': 'raise-in-all-removed', 'ops': [['mkp'], ['mk', 0], ['mk', 1], ['mk', 2], S_, W_, W_, W_, W_, ['raise'],
+                                                               ['rmp'], D_, D_, W_, ['mkp'], D_, ['mk', 1], D_, W_, W_]},
+    {'kind': 'hand', 'name': 'raise-in-worker', 'ops': [['mkp'], S_, ['mk', 0], ['mk', 1], D_, ['raise'], W_, W_, W_, ['rm', 0], ['mk', 2], D_,
+                                                          ['raise'], ['raise'], W_, W_, W_]},
+    # member vanishes between listing and reading; filtered sibling
+    {'kind': 'hand', 'name': 'vanish', 'filtered': [2], 'ops': [['mkp'], S_, ['mk', 0], ['mk', 1], ['mk', 2], D_, W_, ['rm', 0], ['rm', 1], W_, W_, D_, W_]},
+    # path absent at construction, created later; two children watches after a late children callback
+    {'kind': 'hand', 'name': 'late-create', 'ops': [S_, W_, ['mkp'], D_, ['mk', 0], D_, W_, W_, ['rmp'], D_, D_, ['mkp'], D_, W_, ['mk', 1], D_, W_, W_]},
+    {'kind': 'hand', 'name': 'two-watches', 'ops': [['mkp'], S_, W_, ['rmp'], D_, ['mkp'], D_, D_, W_, ['mk', 0], D_, D_, W_, W_, ['rm', 0], D_, D_, W_]},
+]
+PATTERN_HAND = [
+    {'kind': 'pattern', 'pattern': 'g1', 'name': 'f22-stale-join', 'ops': [['mkp'], S_, ['mk', 0], ['mk', 1], D_, W_, W_, ['rmp'], D_, D_, W_, W_]},
+    {'kind': 'pattern', 'pattern': 'g1', 'name': 'f22-double-join', 'ops': [['mkp'], S_, ['mk', 0], D_, ['rmp'], D_, D_, ['mkp'], ['mk', 0], D_, W_, W_, W_]},
+    {'kind': 'pattern', 'pattern': 'g2', 'name': 'vanish-recreate', 'ops': [['mkp'], S_, ['mk', 0], D_, ['rm', 0], W_, W_, ['mk', 0], D_, W_]},
+    {'kind': 'pattern', 'pattern': 'g3', 'name': 'dead-watch', 'ops': [['mkp'], ['mk', 0], S_, W_, W_, ['rmp'], D_, ['mkp'], D_, W_, ['mk', 1], D_, W_]},
+    {'kind': 'pattern', 'pattern': 'g3', 'name': 'missed-absence', 'ops': [['mkp'], S_, ['rmp'], W_, D_, ['mkp'], ['mk', 0], D_, W_, W_, ['rmp'], D_, D_]},
+]
+
+
+def gen_cases(tier, seed):
+  avoid = avoided()
+  out = [dict(c) for c in HAND]
+  quick = tier == 'quick'
+  for names, filt, depth, limit in ([([0, 1], [], 8 if quick else 11, 700 if quick else 9000),
+                                     ([0, 2], [2], 7 if quick else 9, 250 if quick else 2500)]):
+    for ops in _cover_traces(depth, avoid, names, filt, limit):
+      out.append({'kind': 'cover', 'filtered': filt, 'ops': ops})
+  n = 500 if quick else 9000
+  for i in range(n):
+    out.append(_random_trace(C.case_rng(seed, PID, i), avoid))
+  if avoid != set(AVOID_DEFAULT):
+    allowed = set(AVOID_DEFAULT) - avoid
+    for c in PATTERN_HAND:
+      if c['pattern'] in allowed:
+        out.append(dict(c))
+    for i in range(150 if quick else 1500):
+      c = _random_trace(C.case_rng(seed + 104729, PID, i), avoid)
+      c['kind'] = 'random-unrestricted'
+      out.append(c)
+  return out
+
+
+def search_cases(tier, seed, diverging):
+  """Used only when proof/correspondence broke and no monitor fired: a second, larger stream of histories."""
+  out = []
+  for i in range(3000):
+    c = _random_trace(C.case_rng(seed + 15485863, PID, i), avoided())
+    c['kind'] = 'search'
+    out.append(c)
+  for ops in _cover_traces(9, avoided(), [0, 1], [], 4000):
+    out.append({'kind': 'search', 'filtered': [], 'ops': ops})
+  return out
+
+
+# ---------------------------------------------------------------------------------------------
+# translation to Coq terms
+# ---------------------------------------------------------------------------------------------
+_LBL = {'start': 'Start', 'mkp': 'CreateParent', 'rmp': 'DeleteParent', 'touch': 'TouchParent', 'deliver': 'Deliver',
+        'raise': 'CallbackRaises'}
+
+
+def _label(op, st):
+  k = op[0]
+  if k in _LBL:
+    return _LBL[k]
+  if k == 'mk':
+    return 'Create %s' % C.zlit(op[1])
+  if k == 'rm':
+    return 'Delete %s' % C.zlit(op[1])
+  if k == 'work':
+    return 'WorkerStep %s' % C.opt(None if st['parked'] is None else C.zlit(st['parked']))
+  raise ValueError(k)
+
+
+def _obs(st):
+  ev = C.lst(['Ev %s %s %s' % ('Join' if e[0] == 'join' else 'Leave', C.zlit(e[1]), C.blit(e[2])) for e in st['ev']])
+  reads = C.lst(['(%s, %s)' % (C.zlit(n), C.blit(f)) for n, f in st['reads']])
+  parked = C.opt(None if st['parked'] is None else C.zlit(st['parked']))
+  pend = C.lst(['PData' if p == 'data' else 'PChild' for p in st['pending']])
+  tree = C.opt(None if st['tree'] is None else C.zlist(st['tree']))
+  exc = C.blit('exc' in st or st.get('worker_dead', False))
+  return 'Obs %s %s %s %s %s %s %s %s' % (ev, reads, parked, pend, C.natlit(st['dw']), C.natlit(st['cw']), tree, exc)
+
+
+def to_coq(case, obs):
+  if 'skipped' in obs:
+    return None
+  steps = C.lst(['(%s, %s)' % (_label(op, st), _obs(st)) for op, st in zip(case['ops'], obs['steps'])])
+  return '(%s, %s)' % (C.zlist(case.get('filtered', [])), steps)
+
+
+# ---------------------------------------------------------------------------------------------
+# evidence helpers
+# ---------------------------------------------------------------------------------------------
+def _quiescent_points(case, obs):
+  started = busy = False
+  prev_cw = 0
+  n = 0
+  for op, st in zip(case['ops'], obs['steps']):
+    if op[0] == 'start':
+      started = True
+    if op[0] in ('start', 'deliver') and st['cw'] > prev_cw:
+      busy = True
+    if op[0] == 'work' and st['parked'] is None:
+      busy = False
+    if started and not st['pending'] and st['parked'] is None and not busy:
+      n += 1
+    prev_cw = st['cw']
+  return n
+
+
+def nontrivial(case, obs):
+  if 'skipped' in obs:
+    return False
+  return any(s['ev'] for s in obs['steps']) and _quiescent_points(case, obs) > 0
+
+
+def describe(case, obs):
+  c = dict(case)
+  if len(c['ops']) > 40:
+    c['ops'] = c['ops'][:40] + ['... %d more' % (len(case['ops']) - 40)]
+  o = {'skipped': obs['skipped']} if 'skipped' in obs else {
+      'notifications': [e for s in obs['steps'] for e in s['ev']][:30],
+      'final_tree': obs['steps'][-1]['tree'] if obs['steps'] else None}
+  return {'case': c, 'obs': o}
+
+
+def stats(cases, obs):
+  import collections
+  b = collections.Counter()
+  for c, o in zip(cases, obs):
+    if not isinstance(o, dict) or 'steps' not in o:
+      b['cases_skipped_avoided_family'] += 1 if isinstance(o, dict) and 'skipped' in o else 0
+      continue
+    b['quiescent_points_checked'] += _quiescent_points(c, o)
+    prev = {'pending': [], 'cw': 0, 'parked': None, 'tree': None}
+    members_held = 0
+    for op, st in zip(c['ops'], o['steps']):
+      k = op[0]
+      if k in ('mkp', 'rmp', 'touch', 'mk', 'rm'):
+        b['%s_%s' % (k, 'effective' if st.get('eff') else 'noop')] += 1
+      elif k == 'deliver':
+        kind = st.get('kind')
+        if kind is None:
+          b['deliver_nothing_pending'] += 1
+        elif kind == 'children':
+          b['deliver_children_%s' % ('path_present' if st['tree'] is not None else 'path_absent_watch_stops')] += 1
+        else:
+          if st['tree'] is None:
+            b['deliver_data_absent_%s' % ('all_removed_with_members' if any(e[0] == 'leave' for e in st['ev']) else 'no_members_or_no_change')] += 1
+          elif st['cw'] > prev['cw']:
+            b['deliver_data_present_begin_watch'] += 1
+          else:
+            b['deliver_data_present_already_watching_or_same_version'] += 1
+      elif k == 'work':
+        if prev['parked'] is None and not st['ev'] and st['parked'] is None:
+          b['work_idle_or_empty_batches'] += 1
+        for _n, f in st['reads']:
+          b['read_%s' % ('found' if f else 'vanished')] += 1
+        if st['parked'] is not None:
+          b['work_parks_on_next_read'] += 1
+        if st['ev']:
+          b['work_applies_batch'] += 1
+      elif k == 'start':
+        b['start_%s' % ('path_present' if st['tree'] is not None else 'path_absent')] += 1
+      if st['cw'] >= 2:
+        b['steps_with_two_or_more_children_watches'] += 1
+      for e in st['ev']:
+        b['%s%s' % (e[0], '_raising' if e[2] else '')] += 1
+      if 'exc' in st:
+        b['exception_escaped_%s' % st['exc']] += 1
+      prev = st
+    if 'noraise_events' in o:
+      b['histories_rerun_without_raising'] += 1
+  return {'branch_distribution': dict(b), 'families_avoided': sorted(avoided())}
